@@ -10,6 +10,7 @@ import (
 func runtimeGoexit() { runtime.Goexit() }
 
 type timer struct {
+	cseq   uint64 // canonical id: (arming thread, its arm count)
 	when   int64
 	period int64
 	seq    int
@@ -21,8 +22,13 @@ type timer struct {
 
 //go:norace
 func (e *exec) addTimer(t *timer) {
+	e.hbTimeWrite()
 	e.timerSeq++
 	t.seq = e.timerSeq
+	if e.cur != nil {
+		e.cur.armed++
+		t.cseq = mix(mix(0x7137, e.cur.cid), e.cur.armed)
+	}
 	t.active = true
 	e.timers = append(e.timers, t)
 }
@@ -37,7 +43,7 @@ func (e *exec) nextTimer() *timer {
 		}
 		e.timers[j] = t
 		j++
-		if best == nil || t.when < best.when || (t.when == best.when && t.seq < best.seq) {
+		if best == nil || t.when < best.when || (t.when == best.when && t.cseq < best.cseq) {
 			best = t
 		}
 	}
@@ -61,7 +67,25 @@ func (e *exec) fireNext() {
 	}
 	e.fire(t)
 	if e.hb != nil {
-		e.hb.clock(t.seq, e.now)
+		obj := 0
+		if t.c != nil {
+			obj = e.objID(unsafe.Pointer(t.c))
+		}
+		e.hb.clock(t.cseq, e.now, obj)
+	}
+}
+
+//go:norace
+func (e *exec) hbTimeRead() {
+	if e != nil && e.hb != nil && !e.aborting && e.cur != nil {
+		e.hb.timeRead(e.cur)
+	}
+}
+
+//go:norace
+func (e *exec) hbTimeWrite() {
+	if e != nil && e.hb != nil && !e.aborting && e.cur != nil {
+		e.hb.timeWrite(e.cur)
 	}
 }
 
@@ -78,6 +102,7 @@ func (e *exec) fire(t *timer) {
 		t.c.pushFromClock(e, time.Unix(0, at))
 	case t.f != nil:
 		th := e.newThread(-1, "AfterFunc", false)
+		th.cid = mix(0xaf7e4, t.cseq)
 		e.startThread(th, t.f)
 	case t.sleep != nil:
 		e.makeRunnable(t.sleep)
@@ -92,6 +117,7 @@ func Now() time.Time {
 	if e == nil {
 		return time.Unix(1_700_000_000, 0)
 	}
+	e.hbTimeRead()
 	return time.Unix(0, e.now)
 }
 
@@ -163,6 +189,7 @@ func NewTicker(d time.Duration) *Ticker {
 //go:norace
 func (t *Ticker) Stop() {
 	if t.t != nil {
+		cur.hbTimeWrite()
 		t.t.active = false
 	}
 }
@@ -248,6 +275,7 @@ func (t *Timer) Stop() bool {
 		return false
 	}
 	was := t.t.active
+	cur.hbTimeWrite()
 	t.t.active = false
 	return was
 }
